@@ -106,11 +106,11 @@ theorem length_le_flatMap_vec8 (ps : List Bytes) : ps.length ≤ (ps.flatMap vec
 def toExtV : Ext → ExtV
   | .serverName names => .sni names
   | .alpn ps => .alpn ps
-  | .supportedVersions _ => .other 43
+  | .supportedVersions vs => .supportedVersions vs
   | .signatureAlgorithms xs => .sigAlgs xs
   | .supportedGroups xs => .curves xs
   | .ecPointFormats f => .pointFormats f
-  | .other t _ => if greaseLike t then .grease else .other t
+  | .other t _ => if greaseLike t then .grease t else .other t
 
 theorem body_length_lt (bodyOk : Nat → Bytes → Bool) (x : Ext) (h : x.WF bodyOk) :
     x.type < 65536 ∧ x.body.length < 65536 := by
@@ -122,7 +122,7 @@ theorem body_length_lt (bodyOk : Nat → Bytes → Bool) (x : Ext) (h : x.WF bod
     obtain ⟨_, _, h3⟩ := h
     exact ⟨by simp [Ext.type], by simp only [Ext.body, length_vec16]; omega⟩
   | supportedVersions vs =>
-    obtain ⟨_, _, h3, _⟩ := h
+    obtain ⟨_, _, h3⟩ := h
     exact ⟨by simp [Ext.type], by simp only [Ext.body, length_vec8, length_flatMap_e16]; omega⟩
   | signatureAlgorithms xs =>
     obtain ⟨_, h2⟩ := h
@@ -161,9 +161,26 @@ theorem parseExt_encode (bodyOk : Nat → Bytes → Bool) (x : Ext) (h : x.WF bo
       protoNames_flatMap ps h2 _ (length_le_flatMap_vec8 ps), Option.map_some]
     simp
   | supportedVersions vs =>
-    obtain ⟨h1, h2, h3, h4⟩ := h
+    obtain ⟨h1, h2, h3⟩ := h
     have hg : greaseLike 43 = false := by decide
-    simp only [Ext.type, hg, Bool.false_eq_true, if_false, Ext.body, toExtV, h4, if_true]
+    have hsv : parseSupportedVersions (vec8 (vs.flatMap e16)) = some (.supportedVersions vs) := by
+      cases vs with
+      | nil => exact absurd rfl h1
+      | cons v t =>
+        have hc := chunks16_flatMap (v :: t) h2
+        cases t with
+        | nil =>
+          -- one version: body = [2, hi, lo] (three bytes, not the two-byte ServerHello form)
+          simp only [vec8, e8, List.cons_append, List.nil_append, parseSupportedVersions, hc, Option.map_some] 
+          simp [List.flatMap_cons, e16, parseSupportedVersions, chunks16?, pairs16] at hc ⊢
+          exact hc
+        | cons w u =>
+          have hl : ∃ a b c d r, (v :: w :: u).flatMap e16 = a :: b :: c :: d :: r := by
+            simp [List.flatMap_cons, e16]
+          obtain ⟨a, b, c, d, r, hr⟩ := hl
+          rw [hr] at hc
+          simp only [vec8, e8, List.cons_append, List.nil_append, hr, parseSupportedVersions, hc, Option.map_some]
+    simp only [Ext.type, hg, Bool.false_eq_true, if_false, Ext.body, toExtV, hsv]
     simp
   | signatureAlgorithms xs =>
     obtain ⟨h1, h2⟩ := h
@@ -194,10 +211,10 @@ theorem parseExt_encode (bodyOk : Nat → Bytes → Bool) (x : Ext) (h : x.WF bo
     by_cases hg : greaseLike t = true
     · simp [hg]
     · have hg' : greaseLike t = false := by simpa using hg
-      have hn : t ≠ 0 ∧ t ≠ 10 ∧ t ≠ 11 ∧ t ≠ 13 ∧ t ≠ 16 := by
+      have hn : t ≠ 0 ∧ t ≠ 10 ∧ t ≠ 11 ∧ t ≠ 13 ∧ t ≠ 16 ∧ t ≠ 43 := by
         simp [decodedTypes] at h2
         omega
-      simp [hg', hn.1, hn.2.1, hn.2.2.1, hn.2.2.2.1, hn.2.2.2.2, h4]
+      simp [hg', hn.1, hn.2.1, hn.2.2.1, hn.2.2.2.1, hn.2.2.2.2.1, hn.2.2.2.2.2, h4]
 
 theorem length_encode_pos (x : Ext) : 4 ≤ x.encode.length := by
   simp [Ext.encode, e16, length_vec16]
